@@ -27,6 +27,7 @@ fn check_by_id(id: &str) -> Option<Arc<dyn Check>> {
         "C08" => Arc::new(cpair::C08),
         "C11" => Arc::new(cjs::C11),
         "C13" => Arc::new(cpair::C13),
+        "C15" => Arc::new(cpair::C15),
         "C12" => Arc::new(cjs::C12),
         _ => return None,
     })
